@@ -57,10 +57,11 @@ func (e *Engine) generate(completions Values) {
 func (e *Engine) setPrefix(completions Values) {
 	switch completions.PREFIX {
 	case "":
-		// Select the character just before the cursor.
+		// Select the character just before the cursor: at the very
+		// beginning of the line there is none, and no word to complete.
 		cpos := e.cursor.Pos() - 1
 		if cpos < 0 {
-			cpos = 0
+			return
 		}
 
 		bpos, _ := e.line.SelectBlankWord(cpos)
